@@ -44,7 +44,7 @@ func c20Tokens(msg string) []string {
 	var out []string
 	cur := ""
 	for _, r := range msg {
-		if strings.ContainsRune("qzéjß€", r) {
+		if strings.ContainsRune("qzéjß€ũ", r) {
 			cur += string(r)
 		} else if cur != "" {
 			out = append(out, cur)
@@ -61,8 +61,10 @@ func init() {
 	var namesQ, namesT, wordsQ, wordsT []string
 	namesQ = allStrings(c20Letters[:3], 1, 3)
 	namesT = allStrings(c20Letters, 1, 3)
-	wordsQ = append([]string{""}, allStrings([]string{"q", "z", "é", "ß", "€"}, 1, 3)...)
-	wordsT = append([]string{""}, allStrings([]string{"q", "z", "é", "j", "ß", "€"}, 1, 4)...)
+	// ũ (C5 A9) ends in the same byte as é (C3 A9); % is a formatting verb introducer
+	wordsQ = append([]string{""}, allStrings([]string{"q", "z", "é", "ß", "€", "ũ", "%"}, 1, 2)...)
+	wordsQ = append(wordsQ, allStrings([]string{"q", "z", "é", "ß"}, 3, 3)...)
+	wordsT = append([]string{""}, allStrings([]string{"q", "z", "é", "j", "ß", "€", "ũ", "%"}, 1, 4)...)
 
 	body := func(c *explore.Ctx) {
 		names, words := namesQ, wordsQ
@@ -139,7 +141,12 @@ func init() {
 			c.Fail("not-a-flags-error", fmt.Sprint(err))
 			return
 		}
-		toks := c20Tokens(fe.Message)
+		// the message may echo the given word: take its first occurrence out before reading the names
+		msgNames := fe.Message
+		if word != "" {
+			msgNames = strings.Replace(msgNames, word, " ", 1)
+		}
+		toks := c20Tokens(msgNames)
 		c.Outcome(fmt.Sprint(fe.Type), strings.Join(toks, ","), fmt.Sprint(strings.Contains(fe.Message, "did you mean")))
 
 		if form == 0 {
@@ -156,10 +163,7 @@ func init() {
 			c.Fail("unknown-command-wrong-type", fe.Type.String())
 			return
 		}
-		// the message may echo the word first
-		if word != "" && len(toks) > 0 && toks[0] == word {
-			toks = toks[1:]
-		}
+
 		// reference: true distances
 		min := -1
 		for _, n := range visible {
@@ -221,11 +225,11 @@ func init() {
 		Body:       body,
 		DevBound:   func(bool) int { return 1 },
 		Rule: "every set of 1..3 command names (all strings of length 1..3 over {q,z,é} quick / {q,z,é,j} thorough), every hidden mask, " +
-			"x every word (all strings <= 3 quick / <= 4 thorough over the letters plus the foreign letters ß (2 bytes) and € (3 bytes), the empty word, and no word at all) x {fresh parser, parser on which an earlier parse selected a command, hidden marks changed after a first diagnosis on the same parser}; " +
+			"x every word (all strings <= 2 over 7 characters and of length 3 over 4 of them quick / <= 4 over 8 characters thorough, drawn from the letters plus the foreign characters ß (2 bytes), € (3 bytes), ũ (2 bytes, same last byte as é) and %, the empty word, and no word at all) x {fresh parser, parser on which an earlier parse selected a command, hidden marks changed after a first diagnosis on the same parser}; " +
 			"oracle = textbook rune Levenshtein + the < 1/2 rule; distinct = distinct (error type, names mentioned, suggestion?) observations",
 		Assumptions:  []string{"names mentioned by a message are read back as maximal runs of the alphabet letters, which do not occur in the message templates", "ties between nearest names: any minimiser accepted", "threshold accepted with the name length in bytes or in characters"},
 		RequiredHits: []string{"missing-command", "suggestion", "enumeration", "used-parser"},
-		Bound:        [2]string{"name sets <=3 of names <=3 over 3 letters; words <=3 over 5 letters", "name sets <=3 of names <=3 over 4 letters; words <=4 over 6 letters"},
+		Bound:        [2]string{"name sets <=3 of names <=3 over 3 letters; words <=3 over 7 characters", "name sets <=3 of names <=3 over 4 letters; words <=4 over 8 characters"},
 		BudgetS:      [2]int{90, 1500},
 	})
 }
